@@ -25,10 +25,20 @@ type NALSpec struct {
 func (n *NALSpec) nal() []byte {
 	b := expand(n.Seed, 0, n.Len)
 	b[0] = n.NRI<<5 | n.Type&0x1F
+	if n.Seed&3 == 0 {
+		// real bitstreams contain runs of zeros and emulation-prevention bytes (00 00 03)
+		step := 5 + int(n.Seed>>8)%7
+		for i := 2; i+3 < len(b); i += step {
+			b[i], b[i+1] = 0, 0
+			if n.Seed&4 == 0 {
+				b[i+2] = 3
+			}
+		}
+	}
 	zeros := 0
 	for i := 1; i < len(b); i++ {
-		if zeros >= 2 && b[i] <= 3 {
-			b[i] |= 0x04
+		if zeros >= 2 && b[i] <= 2 {
+			b[i] |= 0x04 // 00 00 00/01/02 cannot occur inside a NAL unit; 00 00 03 (emulation prevention) can
 		}
 		if b[i] == 0 {
 			zeros++
@@ -388,6 +398,13 @@ func genH264PayCase(t *rapid.T) *H264PayCase {
 		}
 		c.Calls = append(c.Calls, call)
 	}
+	if rapid.IntRange(0, 59).Draw(t, "jumbo") == 0 {
+		// one unit of 64 KiB or more (ordinary for HD key frames; sizes that do not fit 16 bits)
+		c.MTU = uint16(rapid.SampledFrom([]int{1200, 1500, 9000, 40000, 65535}).Draw(t, "jumbomtu"))
+		call := &c.Calls[rapid.IntRange(0, len(c.Calls)-1).Draw(t, "jumbocall")]
+		u := &call.Units[rapid.IntRange(0, len(call.Units)-1).Draw(t, "jumbounit")]
+		u.Len = rapid.SampledFrom([]int{65534, 65535, 65536, 65537, 65538, 65540, 70000, 131072, 131073}).Draw(t, "jumbolen")
+	}
 	if pendingPPS != nil {
 		last := &c.Calls[len(c.Calls)-1]
 		last.Units = append(last.Units, *pendingPPS)
@@ -450,7 +467,7 @@ func genH264DecCase(t *rapid.T) *H264DecCase {
 	return c
 }
 
-const ruleC10 = "payloader: 1-4 Payload calls on one H264Payloader, each an Annex-B buffer (3-/4-byte start codes, optional leading zero byte) or one bare unit; NAL types 1-23 weighted to 1,5,6,7,8,9,12, NRI 0-3, sizes 2 bytes to several MTUs biased to MTU+-2 and 1+k*(MTU-2)+-2, bodies free of start-code emulation with a non-zero last byte; SPS/PPS only as adjacent pairs (possibly split across calls); MTU 3-1500 biased to 3-10; STAP-A on/off; AVC on/off. Oracle: independent RFC 6184 parser/reassembler on the output (single | STAP-A | FU-A shapes, S/E placement, >=2 fragments, R=0, no empty fragment, <= MTU, pair as one STAP-A or individually, IsPartitionHead on first payloads only, byte-exact units in order minus AUD/filler) and H264Packet output = reference depacketizer output per payload. decoder: streams from the independent encoder (single, STAP-A of 1-5 units, FU-A with arbitrary fragment sizes incl. 1-byte and empty ones, the start fragment included). Non-trivial = stream with an FU-A train or a STAP-A; distinct = FNV-64 of the JSON case"
+const ruleC10 = "payloader: 1-4 Payload calls on one H264Payloader, each an Annex-B buffer (3-/4-byte start codes, optional leading zero byte) or one bare unit; NAL types 1-23 weighted to 1,5,6,7,8,9,12, NRI 0-3, sizes 2 bytes to several MTUs biased to MTU+-2 and 1+k*(MTU-2)+-2 (one case in 60 holds a unit of 65534-131073 bytes, parameter sets included), bodies free of start-code emulation with a non-zero last byte; SPS/PPS only as adjacent pairs (possibly split across calls); MTU 3-1500 biased to 3-10; STAP-A on/off; AVC on/off. Oracle: independent RFC 6184 parser/reassembler on the output (single | STAP-A | FU-A shapes, S/E placement, >=2 fragments, R=0, no empty fragment, <= MTU, pair as one STAP-A or individually, IsPartitionHead on first payloads only, byte-exact units in order minus AUD/filler) and H264Packet output = reference depacketizer output per payload. decoder: streams from the independent encoder (single, STAP-A of 1-5 units, FU-A with arbitrary fragment sizes incl. 1-byte and empty ones, the start fragment included). Non-trivial = stream with an FU-A train or a STAP-A; distinct = FNV-64 of the JSON case"
 
 func TestC10(t *testing.T) {
 	r := begin(t, "C10", "exploration", ruleC10)
